@@ -355,6 +355,9 @@ func (fr *Frame) builtin(x *ssa.Call, name string, args []Value) Value {
 		if !okd {
 			it.abortf("copy into a slice of symbolic length in %s", fr.fn)
 		}
+		if dst.Arr.Obj != nil && dst.Arr.Obj.Global && !isInit(fr.fn) {
+			it.event("global-store", fr.fn, x.Pos(), "copy into package-level variable %s outside init", dst.Arr.Path())
+		}
 		n := int(dn.Int64())
 		switch src := args[1].(type) {
 		case SliceV, AbsSlice:
